@@ -210,7 +210,7 @@ fn consume(s: &S, id: usize) {
     s.log.push(Ev::ConsRet(id, got, rate));
 }
 
-fn e1(ctx: &Ctx, res: &mut PartResult, pb: usize, two_pushers: bool) {
+fn e1(ctx: &Ctx, res: &mut PartResult, pb: usize, two_pushers: bool, two_consumers: bool) {
     let mut bodies = vec![body(|s: &S| {
         for v in [1u64, 2] {
             s.log.push(Ev::PushCall(v));
@@ -225,13 +225,18 @@ fn e1(ctx: &Ctx, res: &mut PartResult, pb: usize, two_pushers: bool) {
             s.log.push(Ev::PushRet(3));
         }));
     }
-    bodies.push(body(|s: &S| {
-        consume(s, 0);
-        consume(s, 1);
-    }));
+    if two_consumers {
+        bodies.push(body(|s: &S| consume(s, 0)));
+        bodies.push(body(|s: &S| consume(s, 1)));
+    } else {
+        bodies.push(body(|s: &S| {
+            consume(s, 0);
+            consume(s, 1);
+        }));
+    }
     let npush: u64 = if two_pushers { 3 } else { 2 };
     let scn = Scenario {
-        name: format!("pusher(2 pushes){} || consumer(2 consumes), capacity 4, then 2 sequential consumes", if two_pushers { " || pusher(1 push)" } else { "" }),
+        name: format!("pusher(2 pushes){} || {}, capacity 4, then 2 sequential consumes", if two_pushers { " || pusher(1 push)" } else { "" }, if two_consumers { "consumer(1 consume) || consumer(1 consume)" } else { "consumer(2 consumes)" }),
         setup: Box::new(|| S { r: AtomicSamplingReservoir::new(4), log: Log::new() }),
         bodies,
         check: Box::new(move |s, _| {
@@ -240,7 +245,7 @@ fn e1(ctx: &Ctx, res: &mut PartResult, pb: usize, two_pushers: bool) {
             let log = s.log.get();
             // does some push overlap a consume (in real time)?
             let mut pushes: Vec<(usize, usize)> = Vec::new();
-            let mut conses: Vec<(usize, usize)> = Vec::new();
+            let mut conses: Vec<(usize, usize, usize)> = Vec::new(); // (call, return, consume id)
             let mut open_p = std::collections::BTreeMap::new();
             let mut open_c = std::collections::BTreeMap::new();
             let mut yielded: Vec<f64> = Vec::new();
@@ -255,7 +260,7 @@ fn e1(ctx: &Ctx, res: &mut PartResult, pb: usize, two_pushers: bool) {
                     }
                     Ev::ConsClosure(_) => {}
                     Ev::ConsRet(id, got, _) => {
-                        conses.push((open_c[id], i));
+                        conses.push((open_c[id], i, *id));
                         yielded.extend(got.iter());
                     }
                 }
@@ -264,8 +269,7 @@ fn e1(ctx: &Ctx, res: &mut PartResult, pb: usize, two_pushers: bool) {
             // (it chose its side before the swap). A push that started after the closure began goes to the fresh side
             // by design and must never be lost or drained early: that is not covered by the known finding.
             let closures: std::collections::BTreeMap<usize, usize> = log.iter().enumerate().filter_map(|(i, e)| if let Ev::ConsClosure(id) = e { Some((*id, i)) } else { None }).collect();
-            let cons_ids: Vec<usize> = log.iter().filter_map(|e| if let Ev::ConsCall(id) = e { Some(*id) } else { None }).collect();
-            let overlap = pushes.iter().any(|(pc, pr)| conses.iter().enumerate().any(|(ci, (cc, cr))| pc < cr && cc < pr && closures.get(&cons_ids[ci]).map(|cl| pc < cl).unwrap_or(true)));
+            let overlap = pushes.iter().any(|(pc, pr)| conses.iter().any(|(cc, cr, id)| pc < cr && cc < pr && closures.get(id).map(|cl| pc < cl).unwrap_or(true)));
             let sig = |base: &str| if overlap { format!("drain-vs-unfinished-push:{}", base) } else { base.to_string() };
             let mut seen = std::collections::BTreeSet::new();
             for v in &yielded {
@@ -299,6 +303,7 @@ fn parts(ctx: &Ctx) -> Vec<PartSpec> {
             PartSpec::new("e3-tree-cap0-3", json!({"caps": [0, 1, 2, 3], "extra": 3})),
             PartSpec::new("e1-push-vs-consume-pb2", json!({"e1": 2, "two": false})),
             PartSpec::new("e1-2pushers-vs-consume-pb2", json!({"e1": 2, "two": true})),
+            PartSpec::new("e1-push-vs-2consumers-pb2", json!({"e1": 2, "two": false, "cons2": true})),
         ]
     } else {
         vec![
@@ -306,6 +311,7 @@ fn parts(ctx: &Ctx) -> Vec<PartSpec> {
             PartSpec::new("e3-tree-cap4", json!({"caps": [4], "extra": 3})).budget(1500.0),
             PartSpec::new("e1-push-vs-consume-pb4", json!({"e1": 4, "two": false})).budget(1500.0),
             PartSpec::new("e1-2pushers-vs-consume-pb3", json!({"e1": 3, "two": true})).budget(1500.0),
+            PartSpec::new("e1-push-vs-2consumers-pb3", json!({"e1": 3, "two": false, "cons2": true})).budget(1500.0),
         ]
     }
 }
@@ -313,7 +319,7 @@ fn parts(ctx: &Ctx) -> Vec<PartSpec> {
 fn run(ctx: &Ctx, spec: &PartSpec) -> PartResult {
     let mut res = PartResult::new(&spec.name, "");
     if let Some(pb) = spec.arg["e1"].as_u64() {
-        e1(ctx, &mut res, pb as usize, spec.arg["two"].as_bool().unwrap_or(false));
+        e1(ctx, &mut res, pb as usize, spec.arg["two"].as_bool().unwrap_or(false), spec.arg["cons2"].as_bool().unwrap_or(false));
     } else {
         let caps: Vec<usize> = spec.arg["caps"].as_array().unwrap().iter().map(|x| x.as_u64().unwrap() as usize).collect();
         e3_tree(ctx, &mut res, &caps, spec.arg["extra"].as_u64().unwrap_or(3) as usize);
@@ -325,7 +331,7 @@ fn main() {
     driver::main(CheckDef {
         prop: "C16",
         level: "model_checking",
-        rule: "E3: for every capacity in the list, every push count 0..=cap+extra in cycle 1 and {0,1,cap+1} in cycle 2, the complete tree of answers of every fastrand(upper) call (RNG seam) is enumerated on the real AtomicSamplingReservoir; every leaf is checked (yield subset/count/sample rate/fresh start) and retention probabilities are summed with exact rational weights; E1: all SC interleavings (pb-bounded) of pushes with consumes; distinct = distinct (configuration, yields) leaves / outcomes",
+        rule: "E3: for every capacity in the list, every push count 0..=cap+extra in cycle 1 and {0,1,cap+1} in cycle 2, the complete tree of answers of every fastrand(upper) call (RNG seam) is enumerated on the real AtomicSamplingReservoir; every leaf is checked (yield subset/count/sample rate/fresh start) and retention probabilities are summed with exact rational weights; E1: all SC interleavings (pb-bounded) of pushes with consumes (one or two pushing threads, one or two consuming threads); distinct = distinct (configuration, yields) leaves / outcomes",
         assumptions: &["the RNG is uniform over 0..upper (the seam replaces it by enumeration of all answers with weight 1/upper)", "E1: sequential consistency (the reservoir uses Relaxed orderings; weak-memory effects are not explored)"],
         parts,
         run,
